@@ -8,12 +8,18 @@ def cfg(wd, name, body):
     p = os.path.join(wd, name); open(p, "w").write(body); return p
 
 def classify(g, diags):
-    """key of the failing input class (for known_findings.json)"""
-    msg = " ".join((d.get("message") or "") + " " + (d.get("rendered") or "") for d in diags)
+    """key of the failing input class (for known_findings.json); judged on the diagnostics' own messages,
+    not on the quoted source"""
+    msgs = [d.get("message") or "" for d in diags]
+    msg = " | ".join(msgs)
     if "proc-macro derive panicked" in msg: return "lifetime-outlives-bound-panics"
     if any(d.get("code") == "E0477" for d in diags) or "does not fulfill the required lifetime" in msg: return "custom-bounds-with-lifetime"
-    if "NoInfo" in msg or ("`NC`" in msg) or ("`R`" in msg and "TypeInfo" in msg) or ("`RC`" in msg): return "skipped-member-or-parameter-bound"
-    if "as Cfg>::A" in msg and any(f["t"] == "selfassoc" for f in g["fields"]): return "associated type only inside a self-referential field type"
+    assoc = [m for m in msgs if "as Cfg>::A: TypeInfo` is not satisfied" in m]
+    if assoc and len(assoc) == len([m for m in msgs if "is not satisfied" in m]) and not g.get("predicted", True) \
+            and any(f["t"] == "selfassoc" for f in g["fields"]):
+        return "associated type only inside a self-referential field type"
+    if any(("`NoInfo" in m or "`NC" in m or "`RC" in m or "`R:" in m or "`R`" in m) and "TypeInfo" in m for m in msgs):
+        return "skipped-member-or-parameter-bound"
     return "generic"
 
 def run(tier, replay=None):
